@@ -24,7 +24,13 @@
     `c26_partial_publish_after_any_history` — by ANY history of REGISTER / SUBSCRIBE exchanges (the
     model's handlers are shown to be such steps: `step_handle*`, `step_client_*`) from the initial
     states; consequence (`c26_agree_publish`, with C01): a Publish on a registered name reaches the
-    broker under exactly the name the application gave;
+    broker under exactly the name the application gave; `Inv2` / `reach2_inv` /
+    `c26_partial_publish_after_any_history2` extend this to histories that also contain the
+    gateway's OWN registrations for broker messages (choose the TopicID — `regIds` —, the client
+    accepts the REGISTER, the gateway binds the ID at the REGACK, in any interleaving with everything
+    else: `step2_handleBrokerPublish_new`, `step2_client_register(_repeated)`, `step2_bpRegack`), and
+    `c26_partial_ids_mean_one_name`: after any such history no TopicID the client holds for a name is
+    bound to another name in the gateway;
   * `c26_sleep_from_awake_silent` with `c11_wake`: after PINGRESP the gateway takes the client for
     asleep again, and the client's next Sleep() from `awake` sends nothing — the two sides agree on
     the state without a DISCONNECT;
@@ -758,5 +764,356 @@ theorem step_client_suback (c : Cl.Cl) (g : Gw.Gw) (t : Cl.Tx) (label name : Byt
   simp only [hl, hk, hd]
   simp only [ne_eq, not_true_eq_false, if_false, if_true, hz, not_false_eq_true]
   rw [(Cl.finishTx_tables _ _ _).1]
+
+end Bisquitt.Sys
+
+namespace Bisquitt.Sys
+open Bisquitt
+
+/-! ### … including the registrations the gateway itself starts for broker messages -/
+
+/-- agreement of the tables up to registrations in progress (the gateway has chosen the TopicID
+    of a name, `regIds`, and waits for the client's REGACK before binding it) -/
+structure Inv2 (c : Cl.Cl) (g : Gw.Gw) : Prop where
+  agree : ∀ n i, c.registered.lookup n = some i → g.registered.lookup i = some n ∨ g.regIds.lookup n = some i
+  /-- a TopicID chosen for a name is unbound or bound to that name -/
+  rcons : ∀ n i, g.regIds.lookup n = some i → g.registered.lookup i = none ∨ g.registered.lookup i = some n
+  rinj : ∀ n n' i, g.regIds.lookup n = some i → g.regIds.lookup n' = some i → n = n'
+  cbelow : ∀ n i, c.registered.lookup n = some i → i.toNat < g.idseq.next.toNat
+  gbelow : ∀ i n, g.registered.lookup i = some n → i.toNat < g.idseq.next.toNat
+  rbelow : ∀ n i, g.regIds.lookup n = some i → i.toNat < g.idseq.next.toNat
+  seqok : Gw.SeqOk g.idseq
+  live : g.idseq.overflow = false
+
+inductive Step2 : Cl.Cl × Gw.Gw → Cl.Cl × Gw.Gw → Prop
+  | gwAlloc (c : Cl.Cl) (g g1 g' : Gw.Gw) (id : UInt16) (name : Bytes) :
+      g.newTopicId = (some id, g1) → g1.idseq.overflow = false →
+      g'.registered = (id, name) :: g1.registered → g'.idseq = g1.idseq → g'.regIds = g1.regIds → Step2 (c, g) (c, g')
+  | clLearn (c c' : Cl.Cl) (g : Gw.Gw) (id : UInt16) (name : Bytes) :
+      g.registered.lookup id = some name → c'.registered = (name, id) :: c.registered → Step2 (c, g) (c', g)
+  /-- a broker message on a name without TopicID: the gateway chooses one and sends REGISTER -/
+  | gwReserve (c : Cl.Cl) (g g1 g' : Gw.Gw) (id : UInt16) (name : Bytes) :
+      g.regIds.lookup name = none → g.newTopicId = (some id, g1) → g1.idseq.overflow = false →
+      g'.regIds = (name, id) :: g1.regIds → g'.registered = g1.registered → g'.idseq = g1.idseq → Step2 (c, g) (c, g')
+  /-- the client accepts that REGISTER -/
+  | clLearnReserved (c c' : Cl.Cl) (g : Gw.Gw) (id : UInt16) (name : Bytes) :
+      g.regIds.lookup name = some id → c'.registered = (name, id) :: c.registered → Step2 (c, g) (c', g)
+  /-- the gateway gets the REGACK and binds the TopicID -/
+  | gwCommit (c : Cl.Cl) (g g' : Gw.Gw) (id : UInt16) (name : Bytes) :
+      g.regIds.lookup name = some id → g'.registered = (id, name) :: g.registered → g'.idseq = g.idseq →
+      g'.regIds = g.regIds → Step2 (c, g) (c, g')
+  | frame (c c' : Cl.Cl) (g g' : Gw.Gw) :
+      c'.registered = c.registered → g'.registered = g.registered → g'.idseq = g.idseq → g'.regIds = g.regIds →
+      Step2 (c, g) (c', g')
+
+theorem newTopicId_regIds (g : Gw.Gw) : g.newTopicId.2.regIds = g.regIds := by
+  unfold Gw.Gw.newTopicId
+  split
+  · rfl
+  · simp only
+    split
+    · rfl
+    · split <;> rfl
+
+theorem lookup_cons_ne {α β} [BEq α] [LawfulBEq α] (k a : α) (b : β) (l : List (α × β)) (h : k ≠ a) :
+    ((a, b) :: l).lookup k = l.lookup k := by
+  simp only [List.lookup_cons]
+  have : (k == a) = false := by simpa using h
+  simp [this]
+
+theorem lookup_cons_eq {α β} [BEq α] [LawfulBEq α] (a : α) (b : β) (l : List (α × β)) :
+    ((a, b) :: l).lookup a = some b := by simp
+
+theorem step2_inv {c c' : Cl.Cl} {g g' : Gw.Gw} (h : Inv2 c g) (st : Step2 (c, g) (c', g')) : Inv2 c' g' := by
+  cases st with
+  | gwAlloc _ _ g1 _ id name ha hov hr hs hri =>
+    have inc := Gw.c04_increasing g g1 id ha h.seqok
+    have hreg : g1.registered = g.registered := by
+      have := newTopicId_registered g; rw [ha] at this; exact this
+    have hrid : g1.regIds = g.regIds := by
+      have := newTopicId_regIds g; rw [ha] at this; exact this
+    have hlt : id.toNat < g1.idseq.next.toNat := inc.2.2.2.2.2.2 hov
+    have hge : g.idseq.next.toNat ≤ id.toNat := inc.2.1
+    have hG : ∀ i, i ≠ id → g'.registered.lookup i = g.registered.lookup i := by
+      intro i hi; rw [hr, hreg]; exact lookup_cons_ne i id name _ hi
+    refine ⟨?_, ?_, ?_, ?_, ?_, ?_, ?_, ?_⟩
+    · intro n i hl
+      have hb := h.cbelow n i hl
+      have hi : i ≠ id := by intro e; rw [e] at hb; omega
+      rw [hG i hi, hri, hrid]; exact h.agree n i hl
+    · intro n i hl
+      rw [hri, hrid] at hl
+      have hb := h.rbelow n i hl
+      have hi : i ≠ id := by intro e; rw [e] at hb; omega
+      rw [hG i hi]; exact h.rcons n i hl
+    · intro n n' i h1 h2; rw [hri, hrid] at h1 h2; exact h.rinj n n' i h1 h2
+    · intro n i hl; rw [hs]; have := h.cbelow n i hl; omega
+    · intro i n hl
+      rw [hs]
+      by_cases hi : i = id
+      · rw [hi]; exact hlt
+      · rw [hG i hi] at hl; have := h.gbelow i n hl; omega
+    · intro n i hl; rw [hri, hrid] at hl; rw [hs]; have := h.rbelow n i hl; omega
+    · rw [hs]; exact inc.2.2.2.1
+    · rw [hs]; exact hov
+  | clLearn _ _ _ id name hg hr =>
+    refine ⟨?_, h.rcons, h.rinj, ?_, h.gbelow, h.rbelow, h.seqok, h.live⟩
+    · intro n i hl
+      rw [hr] at hl
+      by_cases hn : n = name
+      · rw [hn, lookup_cons_eq] at hl
+        simp only [Option.some.injEq] at hl
+        rw [← hl, hn]; exact .inl hg
+      · rw [lookup_cons_ne n name id _ hn] at hl; exact h.agree n i hl
+    · intro n i hl
+      rw [hr] at hl
+      by_cases hn : n = name
+      · rw [hn, lookup_cons_eq] at hl
+        simp only [Option.some.injEq] at hl
+        rw [← hl]; exact h.gbelow _ _ hg
+      · rw [lookup_cons_ne n name id _ hn] at hl; exact h.cbelow n i hl
+  | gwReserve _ _ g1 _ id name hnone ha hov hri hr hs =>
+    have inc := Gw.c04_increasing g g1 id ha h.seqok
+    have hreg : g1.registered = g.registered := by
+      have := newTopicId_registered g; rw [ha] at this; exact this
+    have hrid : g1.regIds = g.regIds := by
+      have := newTopicId_regIds g; rw [ha] at this; exact this
+    have hlt : id.toNat < g1.idseq.next.toNat := inc.2.2.2.2.2.2 hov
+    have hge : g.idseq.next.toNat ≤ id.toNat := inc.2.1
+    have hR : ∀ n, n ≠ name → g'.regIds.lookup n = g.regIds.lookup n := by
+      intro n hn; rw [hri, hrid]; exact lookup_cons_ne n name id _ hn
+    have hRn : g'.regIds.lookup name = some id := by rw [hri]; exact lookup_cons_eq _ _ _
+    have hGid : g.registered.lookup id = none := by
+      cases hx : g.registered.lookup id with
+      | none => rfl
+      | some x => have := h.gbelow id x hx; omega
+    refine ⟨?_, ?_, ?_, ?_, ?_, ?_, ?_, ?_⟩
+    · intro n i hl
+      rw [hr, hreg]
+      rcases h.agree n i hl with h1 | h1
+      · exact .inl h1
+      · have hn : n ≠ name := by intro e; rw [e, hnone] at h1; cases h1
+        right; rw [hR n hn]; exact h1
+    · intro n i hl
+      rw [hr, hreg]
+      by_cases hn : n = name
+      · rw [hn, hRn] at hl
+        simp only [Option.some.injEq] at hl
+        rw [← hl]; exact .inl hGid
+      · rw [hR n hn] at hl; exact h.rcons n i hl
+    · intro n n' i h1 h2
+      by_cases hn : n = name
+      · by_cases hn' : n' = name
+        · rw [hn, hn']
+        · rw [hn, hRn] at h1
+          simp only [Option.some.injEq] at h1
+          rw [hR n' hn', ← h1] at h2
+          have := h.rbelow n' id h2; omega
+      · by_cases hn' : n' = name
+        · rw [hn', hRn] at h2
+          simp only [Option.some.injEq] at h2
+          rw [hR n hn, ← h2] at h1
+          have := h.rbelow n id h1; omega
+        · rw [hR n hn] at h1; rw [hR n' hn'] at h2; exact h.rinj n n' i h1 h2
+    · intro n i hl; rw [hs]; have := h.cbelow n i hl; omega
+    · intro i n hl; rw [hr, hreg] at hl; rw [hs]; have := h.gbelow i n hl; omega
+    · intro n i hl
+      rw [hs]
+      by_cases hn : n = name
+      · rw [hn, hRn] at hl
+        simp only [Option.some.injEq] at hl
+        rw [← hl]; exact hlt
+      · rw [hR n hn] at hl; have := h.rbelow n i hl; omega
+    · rw [hs]; exact inc.2.2.2.1
+    · rw [hs]; exact hov
+  | clLearnReserved _ _ _ id name hR hr =>
+    refine ⟨?_, h.rcons, h.rinj, ?_, h.gbelow, h.rbelow, h.seqok, h.live⟩
+    · intro n i hl
+      rw [hr] at hl
+      by_cases hn : n = name
+      · rw [hn, lookup_cons_eq] at hl
+        simp only [Option.some.injEq] at hl
+        rw [← hl, hn]; exact .inr hR
+      · rw [lookup_cons_ne n name id _ hn] at hl; exact h.agree n i hl
+    · intro n i hl
+      rw [hr] at hl
+      by_cases hn : n = name
+      · rw [hn, lookup_cons_eq] at hl
+        simp only [Option.some.injEq] at hl
+        rw [← hl]; exact h.rbelow _ _ hR
+      · rw [lookup_cons_ne n name id _ hn] at hl; exact h.cbelow n i hl
+  | gwCommit _ _ _ id name hR hr hs hri =>
+    have hG : ∀ i, i ≠ id → g'.registered.lookup i = g.registered.lookup i := by
+      intro i hi; rw [hr]; exact lookup_cons_ne i id name _ hi
+    have hGid : g'.registered.lookup id = some name := by rw [hr]; exact lookup_cons_eq _ _ _
+    refine ⟨?_, ?_, ?_, ?_, ?_, ?_, ?_, ?_⟩
+    · intro n i hl
+      rw [hri]
+      rcases h.agree n i hl with h1 | h1
+      · by_cases hi : i = id
+        · rw [hi] at h1
+          rcases h.rcons name id hR with h2 | h2
+          · rw [h2] at h1; cases h1
+          · rw [h2] at h1
+            simp only [Option.some.injEq] at h1
+            rw [hi, hGid, h1]; exact .inl rfl
+        · rw [hG i hi]; exact .inl h1
+      · exact .inr h1
+    · intro n i hl
+      rw [hri] at hl
+      by_cases hi : i = id
+      · rw [hi] at hl
+        have := h.rinj n name id hl hR
+        rw [hi, hGid, this]; exact .inr rfl
+      · rw [hG i hi]; exact h.rcons n i hl
+    · intro n n' i h1 h2; rw [hri] at h1 h2; exact h.rinj n n' i h1 h2
+    · intro n i hl; rw [hs]; exact h.cbelow n i hl
+    · intro i n hl
+      rw [hs]
+      by_cases hi : i = id
+      · rw [hi]; exact h.rbelow _ _ hR
+      · rw [hG i hi] at hl; exact h.gbelow i n hl
+    · intro n i hl; rw [hri] at hl; rw [hs]; exact h.rbelow n i hl
+    · rw [hs]; exact h.seqok
+    · rw [hs]; exact h.live
+  | frame _ _ _ _ hc hg hs hri =>
+    refine ⟨?_, ?_, ?_, ?_, ?_, ?_, ?_, ?_⟩
+    · intro n i hl; rw [hc] at hl; rw [hg, hri]; exact h.agree n i hl
+    · intro n i hl; rw [hri] at hl; rw [hg]; exact h.rcons n i hl
+    · intro n n' i h1 h2; rw [hri] at h1 h2; exact h.rinj n n' i h1 h2
+    · intro n i hl; rw [hc] at hl; rw [hs]; exact h.cbelow n i hl
+    · intro i n hl; rw [hg] at hl; rw [hs]; exact h.gbelow i n hl
+    · intro n i hl; rw [hri] at hl; rw [hs]; exact h.rbelow n i hl
+    · rw [hs]; exact h.seqok
+    · rw [hs]; exact h.live
+
+inductive Reach2 (s : Cl.Cl × Gw.Gw) : Cl.Cl × Gw.Gw → Prop
+  | refl : Reach2 s s
+  | step {t u : Cl.Cl × Gw.Gw} : Reach2 s t → Step2 t u → Reach2 s u
+
+theorem reach2_inv {s t : Cl.Cl × Gw.Gw} (r : Reach2 s t) (h : Inv2 s.1 s.2) : Inv2 t.1 t.2 := by
+  induction r with
+  | refl => exact h
+  | step _ st ih => exact step2_inv (c := _) (g := _) ih st
+
+theorem inv2_init (ccfg : Cl.Cfg) (gcfg : Gw.Cfg) (mn mx : UInt16) (hm : mn.toNat ≤ mx.toNat) :
+    Inv2 ({ cfg := ccfg } : Cl.Cl) (Gw.Gw.init gcfg mn mx) := by
+  refine ⟨?_, ?_, ?_, ?_, ?_, ?_, Gw.seqOk_new mn mx hm, rfl⟩
+  · intro n i hl; simp at hl
+  · intro n i hl; simp [Gw.Gw.init] at hl
+  · intro n n' i hl; simp [Gw.Gw.init] at hl
+  · intro n i hl; simp at hl
+  · intro i n hl; simp [Gw.Gw.init] at hl
+  · intro n i hl; simp [Gw.Gw.init] at hl
+
+/-- **C26 (partial: histories of REGISTER / SUBSCRIBE exchanges, of the gateway's own registrations for
+    broker messages — reserve, client accepts, commit, in any interleaving — and of steps that leave the
+    tables alone).** After ANY such history from the initial states, a Publish on a name the client has a
+    TopicID for reaches the broker under exactly that name — unless the gateway's registration of that very
+    name is still in progress (the client has accepted the REGISTER, its REGACK has not been handled yet). -/
+theorem c26_partial_publish_after_any_history2 (ccfg : Cl.Cfg) (gcfg : Gw.Cfg) (c : Cl.Cl) (g : Gw.Gw)
+    (r : Reach2 (({ cfg := ccfg } : Cl.Cl), Gw.Gw.init gcfg Gen.MinTopicAlias Gen.MaxTopicAlias) (c, g))
+    (call : String) (name payload : Bytes) (id mid : UInt16) (q : UInt8) (rt dup : Bool)
+    (hl : c.registered.lookup name = some id) (hs : isShortTopic name = false) (hne : name ≠ [])
+    (hw : Gw.Gw.hasWildcard name = false)
+    (hdone : g.regIds.lookup name = some id → g.registered.lookup id = some name) :
+    c.apiPublish call name q rt payload = c.apiPublishRaw call Gen.TIT_REGISTERED id q rt payload ∧
+    (g.handleClientPublish dup q rt Gen.TIT_REGISTERED id mid payload).outs =
+      (g.now, Gw.Out.mq (.publish dup (if q = 3 then 0 else q) rt (if (if q = 3 then 0 else q) = 0 then 0 else mid) name payload))
+        :: g.outs := by
+  have inv := reach2_inv r (inv2_init ccfg gcfg _ _ (by decide))
+  have hg : g.registered.lookup id = some name := by
+    rcases inv.agree name id hl with h1 | h1
+    · exact h1
+    · exact hdone h1
+  refine ⟨?_, ?_⟩
+  · unfold Cl.Cl.apiPublish
+    simp [hs, hl]
+  · apply Gw.c01_forward g dup q rt Gen.TIT_REGISTERED id mid payload name _ hne hw
+    unfold Gw.Gw.resolveTopic
+    simp [hg]
+
+/-- a TopicID the gateway ever sends the client for a name — in a REGACK, a SUBACK or a REGISTER of its
+    own — is, after ANY such history, never bound to another name: what the client resolves by it
+    (`Inv2.agree`, `Inv2.rcons`) is that name -/
+theorem c26_partial_ids_mean_one_name (ccfg : Cl.Cfg) (gcfg : Gw.Cfg) (c : Cl.Cl) (g : Gw.Gw)
+    (r : Reach2 (({ cfg := ccfg } : Cl.Cl), Gw.Gw.init gcfg Gen.MinTopicAlias Gen.MaxTopicAlias) (c, g))
+    (name other : Bytes) (id : UInt16) (hl : c.registered.lookup name = some id)
+    (hg : g.registered.lookup id = some other) : other = name := by
+  have inv := reach2_inv r (inv2_init ccfg gcfg _ _ (by decide))
+  rcases inv.agree name id hl with h1 | h1
+  · rw [h1] at hg; exact (Option.some.inj hg).symm
+  · rcases inv.rcons name id h1 with h2 | h2
+    · rw [h2] at hg; cases hg
+    · rw [h2] at hg; exact (Option.some.inj hg).symm
+
+/-! ### the handlers are such steps -/
+
+theorem step2_of_step {c c' : Cl.Cl} {g g' : Gw.Gw} (st : Step (c, g) (c', g')) (hr : g'.regIds = g.regIds)
+    (hr1 : ∀ g1 : Gw.Gw, ∀ id, g.newTopicId = (some id, g1) → g1.regIds = g.regIds) : Step2 (c, g) (c', g') := by
+  cases st with
+  | gwAlloc _ _ g1 _ id name ha hov hreg hs => exact Step2.gwAlloc c g g1 g' id name ha hov hreg hs (by rw [hr, hr1 g1 id ha])
+  | clLearn _ _ _ id name hg hc => exact Step2.clLearn c c' g id name hg hc
+  | frame _ _ _ _ hc hg hs => exact Step2.frame c c' g g' hc hg hs hr
+
+theorem newTopicId_regIds' (g g1 : Gw.Gw) (id : UInt16) (h : g.newTopicId = (some id, g1)) : g1.regIds = g.regIds := by
+  have := newTopicId_regIds g; rw [h] at this; exact this
+
+/-- a broker message (QoS 1 / 2) on a name without TopicID: reserve (or reuse the reserved ID) and REGISTER -/
+theorem step2_handleBrokerPublish_new (c : Cl.Cl) (g g' : Gw.Gw) (dup retain : Bool) (q : UInt8) (mid newId : UInt16)
+    (topic payload : Bytes)
+    (hlen : payload.length ≤ Gen.MaxPayloadLength ∧ topic.length ≤ Gen.MaxPayloadLength) (hne : topic ≠ [])
+    (hb : g.brokerTopicId topic = none) (hq : q = 1 ∨ q = 2) (ha : g.registrationTopicId topic = (some newId, g'))
+    (hov : g'.idseq.overflow = false) :
+    Step2 (c, g) (c, g.handleBrokerPublish dup q retain mid topic payload) := by
+  rw [Gw.c02_register_first g g' dup retain q mid newId topic payload hlen hne hb hq ha]
+  have tv := Gw.startBrokerPub_topicView g' q mid .awaitingRegack (some (.publish dup q retain 0 newId mid payload))
+    .awaitingRegack (.register newId mid topic)
+  have e1 := congrArg Gw.TopicView.registered tv
+  have e2 := congrArg Gw.TopicView.idseq tv
+  have e3 := congrArg Gw.TopicView.regIds tv
+  simp only [Gw.Gw.topicView] at e1 e2 e3
+  unfold Gw.Gw.registrationTopicId at ha
+  split at ha
+  · -- the ID chosen earlier for this name is used again: nothing changes
+    simp only [Prod.mk.injEq, Option.some.injEq] at ha
+    obtain ⟨_, rfl⟩ := ha
+    exact Step2.frame c c g _ rfl e1 e2 e3
+  · rename_i hnone
+    split at ha
+    · rename_i id g1 hn
+      simp only [Prod.mk.injEq, Option.some.injEq] at ha
+      obtain ⟨rfl, rfl⟩ := ha
+      refine Step2.gwReserve c g g1 _ id topic hnone hn (by simpa [Gw.Gw.storeRegId] using hov) ?_ ?_ ?_
+      · rw [e3]; rfl
+      · rw [e1]; rfl
+      · rw [e2]; rfl
+    · simp at ha
+
+/-- the client accepts a REGISTER of a name it does not know -/
+theorem step2_client_register (c : Cl.Cl) (g : Gw.Gw) (id mid : UInt16) (name : Bytes)
+    (hR : g.regIds.lookup name = some id) (hn : c.registered.lookup name = none) :
+    Step2 (c, g) (c.handlePacket (.register id mid name), g) := by
+  refine Step2.clLearnReserved c _ g id name hR ?_
+  rw [Cl.c26_client_register_new c id mid name hn, sendOrFail_registered]
+
+/-- … or repeats a registration it has already (the other messages of a burst) -/
+theorem step2_client_register_repeated (c : Cl.Cl) (g : Gw.Gw) (id mid : UInt16) (name : Bytes)
+    (hR : g.regIds.lookup name = some id) (hn : c.registered.lookup name = some id) :
+    Step2 (c, g) (c.handlePacket (.register id mid name), g) := by
+  refine Step2.clLearnReserved c _ g id name hR ?_
+  rw [Cl.c26_client_register_repeated c id mid name hn, sendOrFail_registered]
+
+/-- the gateway gets the accepted REGACK of its REGISTER -/
+theorem step2_bpRegack (c : Cl.Cl) (g : Gw.Gw) (t : Gw.Tx) (q : UInt8) (id m : UInt16) (name : Bytes) (pub : Pkt)
+    (hR : g.regIds.lookup name = some id) :
+    Step2 (c, g) (c, g.bpRegack t q .awaitingRegack (.sn (.register id m name)) (some pub) Gen.RC_ACCEPTED) := by
+  rw [Gw.c02_after_regack]
+  have tv := Gw.proceedSN_topicView (g.storeRegistered id name) t.id
+    (if q = 0 then Gw.BpSt.done else if q = 1 then .awaitingPuback else .awaitingPubrec) pub
+  refine Step2.gwCommit c g _ id name hR ?_ ?_ ?_
+  · exact congrArg Gw.TopicView.registered tv
+  · exact congrArg Gw.TopicView.idseq tv
+  · exact congrArg Gw.TopicView.regIds tv
 
 end Bisquitt.Sys
